@@ -83,6 +83,9 @@ STMTS = {
     'I3': ('import', 'os.path', False, 'osp'),
     'I4': ('import', 'os.path', True, None),
     'I5': ('import', 'os.path', True, 'p2'),
+    'I6': ('import', 'os.path', False, 'os'),          # alias equal to the first component: not redundant
+    'I7': ('import', 'os.path', True, 'path'),         # alias equal to the imported name (redundant but legal)
+    'I8': ('import', 'json', False, 'json'),
     'N1': ('include', 'c03inc.gin'),
 }
 Q_KEYS = ['B1', 'B2', 'B3', 'B5', 'B6', 'M1', 'M2', 'M3', 'I3', 'I4', 'N1']
